@@ -287,10 +287,34 @@ impl Ball {
         }
     }
 
+    /// cells kept allocated for the ball: throwing the pre-stored
+    /// `error(resource_error(memory), [])` must not need a fresh allocation.
+    const RESERVE_CELLS: usize = 64;
+
+    /// a ball whose heap already owns a small allocation (falls back to an unallocated one).
+    pub(super) fn with_reserve() -> Self {
+        Ball {
+            boundary: 0,
+            pstr_boundary: 0,
+            stub: Heap::with_cell_capacity(Self::RESERVE_CELLS).unwrap_or_else(|_| Heap::new()),
+        }
+    }
+
     pub(super) fn reset(&mut self) {
         self.boundary = 0;
         self.pstr_boundary = 0;
-        self.stub.clear();
+
+        // keep the allocation (emptied) instead of freeing it: when memory is exhausted the
+        // ball of the resource error could not be allocated again. A big allocation is
+        // swapped for a small one if that can be had.
+        if self.stub.cell_capacity() > Self::RESERVE_CELLS * 1024 {
+            if let Ok(small) = Heap::with_cell_capacity(Self::RESERVE_CELLS) {
+                self.stub = small;
+                return;
+            }
+        }
+
+        self.stub.truncate(0);
     }
 
     pub(super) fn copy_and_align_to(&self, dest: &mut Heap) -> Result<usize, AllocError> {
